@@ -71,72 +71,6 @@ Proof.
     f_equal; lra.
 Qed.
 
-Lemma cti_last_gen n q l' : length l' = n ->
-  St l' = St (timedR 0 q) -> Sv l' = Sv (timedR 0 q) -> Stt l' = Stt (timedR 0 q) ->
-  Svv l' = Svv (timedR 0 q) -> Stv l' = Stv (timedR 0 q) ->
-  @cti_last R ROps n q = Ok (Some (@pearson R ROps l')).
-Proof.
-  intros Hl E1 E2 E3 E4 E5. unfold cti_last. rewrite cti_loop_sums. cbv zeta. cbn [c_sx c_sy c_sxx c_sxy c_syy].
-  rewrite pearson_R. set (l := timedR 0 q) in *.
-  cbn [s0 sofnat smul ssub sadd ssq sgtb sltb ROps]. unfold ssq. cbn [smul ROps].
-  replace (INR n * (0 + Svv l) - (0 + Sv l) * (0 + Sv l)) with (varv l') by (unfold varv; rewrite Hl, E2, E4; ring).
-  replace (INR n * (0 + Stt l) - (0 + St l) * (0 + St l)) with (vart l') by (unfold vart; rewrite Hl, E1, E3; ring).
-  replace (INR n * (0 + Stv l) - (0 + Sv l) * (0 + St l)) with (cov l') by (unfold cov; rewrite Hl, E1, E2, E5; ring).
-  unfold Rltb. destruct (Rlt_dec 0 (varv l')) as [Hv|Hv]; destruct (Rlt_dec 0 (vart l')) as [Ht|Ht]; cbn [andb]; try reflexivity.
-  assert (Hp : 0 < vart l' * varv l') by (apply Rmult_lt_0_compat; assumption).
-  cbn [ssqrt ROps]. destruct (Rlt_dec (varv l' * vart l') 0) as [H|H]; [lra|]. cbn [bind].
-  rewrite sdiv_R_ok by (apply Rgt_not_eq, sqrt_lt_R0; lra). cbn [bind].
-  rewrite (Rmult_comm (varv l')). reflexivity.
-Qed.
-
-Lemma cti_last_R n q : length q = n ->
-  @cti_last R ROps n q = Ok (Some (@pearson R ROps (@timed R ROps q))).
-Proof.
-  intros Hl. rewrite timed_R. apply cti_last_gen; try reflexivity. rewrite timedR_length. exact Hl.
-Qed.
-
-(** before the window is full the model still uses [n] as the count: this is the Pearson correlation of
-    the points present padded with [n - k] points (0,0) *)
-Definition padded (n : nat) (q : list R) : list (R * R) := timedR 0 q ++ repeat (0, 0) (n - length q).
-Lemma sm_repeat0 (f : R * R -> R) k : f (0, 0) = 0 -> sm f (repeat (0, 0) k) = 0.
-Proof. intros H. induction k as [|k IH]; [reflexivity|]. cbn [repeat]. rewrite sm_cons, IH, H. lra. Qed.
-Lemma cti_last_padded n q : (length q <= n)%nat ->
-  @cti_last R ROps n q = Ok (Some (@pearson R ROps (padded n q))).
-Proof.
-  intros Hl. apply cti_last_gen.
-  - unfold padded. rewrite app_length, timedR_length, repeat_length. lia.
-  - unfold St, padded. rewrite sm_app, sm_repeat0; [lra | reflexivity].
-  - unfold Sv, padded. rewrite sm_app, sm_repeat0; [lra | reflexivity].
-  - unfold Stt, padded. rewrite sm_app, sm_repeat0; [lra | cbn; lra].
-  - unfold Svv, padded. rewrite sm_app, sm_repeat0; [lra | cbn; lra].
-  - unfold Stv, padded. rewrite sm_app, sm_repeat0; [lra | cbn; lra].
-Qed.
-
-Lemma cti_state n vs : (1 <= n)%nat -> crun (@cti_core R ROps n) vs = Ok (lastn n vs).
-Proof.
-  intros Hn.
-  destruct (@crun_inv R (@cti_core R ROps n) (fun _ => True) (fun h s => s = lastn n h) []) with (vs:=vs) as [s [Hr Hs]].
-  - reflexivity.
-  - reflexivity.
-  - intros h s v _ _ Hi. subst s. cbn [cstep cti_core]. unfold cti_step.
-    pose proof (evict_push_lastn n h v Hn) as Hev.
-    destruct (Nat.leb n (length (lastn n h))) eqn:E.
-    + apply Nat.leb_le in E. rewrite lastn_length in E.
-      destruct (lastn_hd_tl n h) as [x Hx]; [lia | lia |].
-      rewrite Hx in *. cbn [pop_front bind tl] in *. eexists; split; [reflexivity|]. exact Hev.
-    + cbn [bind]. eexists; split; [reflexivity|]. exact Hev.
-  - apply Forall_forall; trivial.
-  - rewrite Hr, Hs. reflexivity.
-Qed.
-
-(** CTI on a full window is the Pearson correlation of the windowed values with their time index *)
-Theorem cti_closed_form n vs : (1 <= n)%nat -> (n <= length vs)%nat ->
-  cout (@cti_core R ROps n) vs = Ok (@spec_cti R ROps n vs).
-Proof.
-  intros Hn Hl. unfold cout. rewrite cti_state by assumption. cbn [bind clast cti_core].
-  rewrite cti_last_R; [reflexivity|]. rewrite lastn_length. lia.
-Qed.
-
 (** * Covariance as a sum over pairs (Lagrange / Chebyshev identity), Cauchy-Schwarz *)
 Section Cov.
 Context {A : Type}.
@@ -243,6 +177,58 @@ Proof.
   assert (E : c / s * s = c) by (field; lra). set (x := c / s) in *. clearbody x.
   split; nra.
 Qed.
+
+(** * CTI: closed form (needs the range fact to remove the clamp [out.max(-1).min(1)]) *)
+Lemma clamp_id_R x : -1 <= x <= 1 -> @smin R ROps (@smax R ROps x (@sneg R ROps (@s1 R ROps))) (@s1 R ROps) = x.
+Proof.
+  intros [H1 H2]. unfold smin, smax, sgeb. cbn [sleb sneg s1 ROps]. unfold Rleb.
+  destruct (Rle_dec (- (1)) x) as [_|F]; [|lra]. destruct (Rle_dec x 1) as [_|F]; [reflexivity | lra].
+Qed.
+
+(** the model counts the values PRESENT: for every queue this is the Pearson correlation of its values with
+    their time index *)
+Lemma cti_last_R n q : @cti_last R ROps n q = Ok (Some (@pearson R ROps (@timed R ROps q))).
+Proof.
+  unfold cti_last. rewrite cti_loop_sums. cbv zeta. cbn [c_sx c_sy c_sxx c_sxy c_syy].
+  rewrite timed_R. pose proof (pearson_range (timedR 0 q)) as Hr. rewrite pearson_R in *.
+  pose proof (timedR_length 0 q) as Hl. set (l := timedR 0 q) in *.
+  cbn [s0 sofnat smul ssub sadd ssq sgtb sltb ROps]. unfold ssq. cbn [smul ROps].
+  replace (INR (length q) * (0 + Svv l) - (0 + Sv l) * (0 + Sv l)) with (varv l) by (unfold varv; rewrite Hl; ring).
+  replace (INR (length q) * (0 + Stt l) - (0 + St l) * (0 + St l)) with (vart l) by (unfold vart; rewrite Hl; ring).
+  replace (INR (length q) * (0 + Stv l) - (0 + Sv l) * (0 + St l)) with (cov l) by (unfold cov; rewrite Hl; ring).
+  unfold Rltb. destruct (Rlt_dec 0 (varv l)) as [Hv|Hv]; destruct (Rlt_dec 0 (vart l)) as [Ht|Ht]; cbn [andb]; try reflexivity.
+  assert (Hp : 0 < vart l * varv l) by (apply Rmult_lt_0_compat; assumption).
+  cbn [ssqrt ROps]. destruct (Rlt_dec (varv l * vart l) 0) as [H|H]; [lra|]. cbn [bind].
+  rewrite sdiv_R_ok by (apply Rgt_not_eq, sqrt_lt_R0; lra). cbn [bind].
+  rewrite (Rmult_comm (varv l)). rewrite clamp_id_R by exact Hr. reflexivity.
+Qed.
+
+Lemma cti_state n vs : (1 <= n)%nat -> crun (@cti_core R ROps n) vs = Ok (lastn n vs).
+Proof.
+  intros Hn.
+  destruct (@crun_inv R (@cti_core R ROps n) (fun _ => True) (fun h s => s = lastn n h) []) with (vs:=vs) as [s [Hr Hs]].
+  - reflexivity.
+  - reflexivity.
+  - intros h s v _ _ Hi. subst s. cbn [cstep cti_core]. unfold cti_step.
+    pose proof (evict_push_lastn n h v Hn) as Hev.
+    destruct (Nat.leb n (length (lastn n h))) eqn:E.
+    + apply Nat.leb_le in E. rewrite lastn_length in E.
+      destruct (lastn_hd_tl n h) as [x Hx]; [lia | lia |].
+      rewrite Hx in *. cbn [pop_front bind tl] in *. eexists; split; [reflexivity|]. exact Hev.
+    + cbn [bind]. eexists; split; [reflexivity|]. exact Hev.
+  - apply Forall_forall; trivial.
+  - rewrite Hr, Hs. reflexivity.
+Qed.
+
+(** CTI is the Pearson correlation of the windowed values with their time index -- for EVERY history
+    (before the window is full: of the values present) *)
+Theorem cti_closed_form n vs : (1 <= n)%nat ->
+  cout (@cti_core R ROps n) vs = Ok (@spec_cti R ROps n vs).
+Proof.
+  intros Hn. unfold cout. rewrite cti_state by assumption. cbn [bind clast cti_core].
+  rewrite cti_last_R. reflexivity.
+Qed.
+
 
 (** * Affine maps of the values *)
 Lemma sm_map {A B} (f : B -> R) (h : A -> B) l : sm f (map h l) = sm (fun x => f (h x)) l.
@@ -352,32 +338,36 @@ Proof. intros H. rewrite Rabs_right by lra. field. lra. Qed.
 Lemma sign_neg a : a < 0 -> a / Rabs a = -1.
 Proof. intros H. rewrite Rabs_left by lra. field. lra. Qed.
 
-Lemma vmap_app h l1 l2 : vmap h (l1 ++ l2) = vmap h l1 ++ vmap h l2.
-Proof. apply map_app. Qed.
-Lemma vmap_repeat0 h k : h 0 = 0 -> vmap h (repeat (0, 0) k) = repeat (0, 0) k.
-Proof. intros H. induction k as [|k IH]; [reflexivity|]. cbn [repeat vmap map fst snd]. rewrite H. f_equal. exact IH. Qed.
-Lemma padded_map n h q : h 0 = 0 -> padded n (map h q) = vmap h (padded n q).
-Proof. intros H. unfold padded. rewrite vmap_app, vmap_repeat0, timedR_map, map_length by exact H. reflexivity. Qed.
-Lemma padded_full n q : length q = n -> padded n q = timedR 0 q.
-Proof. intros H. unfold padded. rewrite H, Nat.sub_diag. cbn [repeat]. apply app_nil_r. Qed.
-
 (** * CTI: main theorems *)
 
-(** the output for every history (full window or not) *)
+(** the output for every history (full window or not): the Pearson correlation of the values present in the
+    window with their time index *)
 Lemma cti_out n vs : (1 <= n)%nat ->
-  cout (@cti_core R ROps n) vs = Ok (Some (@pearson R ROps (padded n (lastn n vs)))).
-Proof.
-  intros Hn. unfold cout. rewrite cti_state by assumption. cbn [bind clast cti_core].
-  apply cti_last_padded. rewrite lastn_length. lia.
-Qed.
+  cout (@cti_core R ROps n) vs = Ok (Some (@pearson R ROps (timedR 0 (lastn n vs)))).
+Proof. intros Hn. rewrite cti_closed_form by exact Hn. reflexivity. Qed.
 Lemma cti_out_full n vs : (1 <= n)%nat -> (n <= length vs)%nat ->
   cout (@cti_core R ROps n) vs = Ok (Some (@pearson R ROps (timedR 0 (lastn n vs)))).
-Proof. intros Hn Hl. rewrite cti_out, padded_full; [reflexivity | rewrite lastn_length; lia | exact Hn]. Qed.
+Proof. intros Hn _. apply cti_out. exact Hn. Qed.
+
+(** before the window is full CTI is the Pearson correlation of the values present (this replaces the former
+    [cti_warmup_refuted]: the model used to take the window length as the count) *)
+Theorem cti_warmup_is_pearson n vs : (1 <= n)%nat -> (length vs < n)%nat ->
+  cout (@cti_core R ROps n) vs = Ok (Some (@pearson R ROps (@timed R ROps vs))).
+Proof.
+  intros Hn Hl. rewrite cti_closed_form by exact Hn. unfold spec_cti.
+  rewrite lastn_all by lia. reflexivity.
+Qed.
 
 (** (c) CTI lies in [-1, 1] (Cauchy-Schwarz) -- for every history, not only full windows *)
 Theorem cti_range n vs : (1 <= n)%nat ->
   exists x, cout (@cti_core R ROps n) vs = Ok (Some x) /\ -1 <= x <= 1.
 Proof. intros Hn. eexists. split; [apply cti_out; exact Hn | apply pearson_range]. Qed.
+
+(** for every history the output changes by the sign of a under x -> a x + b, a <> 0 *)
+Lemma cti_out_affine n a b vs : (1 <= n)%nat -> a <> 0 ->
+  cout (@cti_core R ROps n) (map (fun v => a * v + b) vs) =
+  Ok (Some (a / Rabs a * @pearson R ROps (timedR 0 (lastn n vs)))).
+Proof. intros Hn Ha. rewrite cti_out, lastn_map, timedR_map, pearson_affine by assumption. reflexivity. Qed.
 
 (** scaling the input by a <> 0 multiplies the output by the sign of a -- for every history *)
 Theorem cti_scale n a vs : (1 <= n)%nat -> a <> 0 ->
@@ -385,9 +375,8 @@ Theorem cti_scale n a vs : (1 <= n)%nat -> a <> 0 ->
             cout (@cti_core R ROps n) (map (fun v => a * v) vs) = Ok (Some (a / Rabs a * x)).
 Proof.
   intros Hn Ha. eexists. split; [apply cti_out; exact Hn|].
-  rewrite cti_out, lastn_map by exact Hn.
   rewrite (map_ext (fun v => a * v) (fun v => a * v + 0)) by (intros; ring).
-  rewrite padded_map by ring. rewrite pearson_affine by exact Ha. reflexivity.
+  apply cti_out_affine; assumption.
 Qed.
 
 (** (d) negating the input negates the output -- for every history *)
@@ -400,23 +389,23 @@ Proof.
   do 2 f_equal. ring.
 Qed.
 
-(** (e) on full windows the output is invariant under x -> a x + b, a > 0 (and changes sign for a < 0) *)
-Theorem cti_affine_inv n a b vs : (1 <= n)%nat -> (n <= length vs)%nat -> 0 < a ->
+(** (e) the output is invariant under x -> a x + b, a > 0 (and changes sign for a < 0) -- for every history
+    (the former guard [n <= length vs] is no longer needed: the count is the number of values present) *)
+Theorem cti_affine_inv n a b vs : (1 <= n)%nat -> 0 < a ->
   cout (@cti_core R ROps n) (map (fun v => a * v + b) vs) = cout (@cti_core R ROps n) vs.
 Proof.
-  intros Hn Hl Ha. rewrite !cti_out_full by (try rewrite map_length; assumption).
-  rewrite lastn_map, timedR_map, pearson_affine, sign_pos by lra. do 2 f_equal. ring.
+  intros Hn Ha. rewrite cti_out_affine, cti_out, sign_pos by (try lra; assumption). do 2 f_equal. ring.
 Qed.
-Theorem cti_affine_inv_neg n a b vs : (1 <= n)%nat -> (n <= length vs)%nat -> a < 0 ->
+Theorem cti_affine_inv_neg n a b vs : (1 <= n)%nat -> a < 0 ->
   exists x, cout (@cti_core R ROps n) vs = Ok (Some x) /\
             cout (@cti_core R ROps n) (map (fun v => a * v + b) vs) = Ok (Some (- x)).
 Proof.
-  intros Hn Hl Ha. eexists. split; [apply cti_out_full; assumption|].
-  rewrite cti_out_full by (try rewrite map_length; assumption).
-  rewrite lastn_map, timedR_map, pearson_affine, sign_neg by lra. do 2 f_equal. ring.
+  intros Hn Ha. eexists. split; [apply cti_out; assumption|].
+  rewrite cti_out_affine, sign_neg by (try lra; assumption). do 2 f_equal. ring.
 Qed.
 
-(** (b) a strictly increasing full window gives a positive output, a strictly decreasing one a negative output *)
+(** (b) a strictly increasing window (of at least two values; it need not be full) gives a positive output, a
+    strictly decreasing one a negative output *)
 Lemma pearson_incr_pos w : Sorted Rlt w -> (2 <= length w)%nat -> 0 < @pearson R ROps (timedR 0 w).
 Proof.
   intros Hs Hl. apply Sorted_StronglySorted in Hs; [|exact Rlt_trans].
@@ -433,13 +422,13 @@ Proof.
   destruct Hd as [|y w' Hxy]; cbn [map]; constructor. unfold Rgt in Hxy. lra.
 Qed.
 
-Theorem cti_pos n vs : (2 <= n)%nat -> (n <= length vs)%nat -> Sorted Rlt (lastn n vs) ->
+Theorem cti_pos n vs : (2 <= n)%nat -> (2 <= length vs)%nat -> Sorted Rlt (lastn n vs) ->
   exists x, cout (@cti_core R ROps n) vs = Ok (Some x) /\ 0 < x.
 Proof.
-  intros Hn Hl Hs. eexists. split; [apply cti_out_full; [lia | exact Hl]|].
+  intros Hn Hl Hs. eexists. split; [apply cti_out; lia|].
   apply pearson_incr_pos; [exact Hs | rewrite lastn_length; lia].
 Qed.
-Theorem cti_neg_decr n vs : (2 <= n)%nat -> (n <= length vs)%nat -> Sorted Rgt (lastn n vs) ->
+Theorem cti_neg_decr n vs : (2 <= n)%nat -> (2 <= length vs)%nat -> Sorted Rgt (lastn n vs) ->
   exists x, cout (@cti_core R ROps n) vs = Ok (Some x) /\ x < 0.
 Proof.
   intros Hn Hl Hs. destruct (cti_neg n vs) as [x [H1 H2]]; [lia|]. exists x. split; [exact H1|].
@@ -496,7 +485,7 @@ Theorem cti_monotone_refuted :
 Proof.
   exists 4%nat, [1; 2; 4; 8]. split; [lia|]. split; [cbn; lia|]. split.
   { unfold lastn. cbn [length Nat.sub skipn]. repeat constructor; lra. }
-  eexists. split; [apply cti_out_full; cbn; lia|].
+  eexists. split; [apply cti_out; cbn; lia|].
   unfold lastn. cbn [length Nat.sub skipn]. rewrite pearson_R.
   set (l := timedR 0 [1; 2; 4; 8]).
   assert (Ht : vart l = 20).
@@ -516,23 +505,23 @@ Proof.
   assert (x < 1) by nra. split; lra.
 Qed.
 
-(** C16 (exact half): identical last n values give exactly 0 *)
+(** C16 (exact half): identical values in the window give exactly 0 -- for every history *)
 Lemma const_map c (w : list R) : Forall (fun x => x = c) w -> map (fun x => 0 * x + c) w = w.
 Proof. induction 1 as [|x w Hx _ IH]; [reflexivity|]. cbn [map]. rewrite IH, Hx. f_equal. ring. Qed.
 
-Theorem cti_const n c vs : (1 <= n)%nat -> (n <= length vs)%nat -> Forall (fun x => x = c) (lastn n vs) ->
+Theorem cti_const n c vs : (1 <= n)%nat -> Forall (fun x => x = c) (lastn n vs) ->
   cout (@cti_core R ROps n) vs = Ok (Some 0).
 Proof.
-  intros Hn Hl Hc. rewrite cti_out_full by assumption. rewrite <- (const_map c _ Hc), timedR_map, pearson_R.
+  intros Hn Hc. rewrite cti_out by assumption. rewrite <- (const_map c _ Hc), timedR_map, pearson_R.
   rewrite varv_aff. destruct (Rlt_dec 0 (vart _)); [|reflexivity].
   destruct (Rlt_dec 0 (0 * 0 * varv _)) as [F|_]; [lra | reflexivity].
 Qed.
 
-(** C03: finite memory K = n *)
+(** C03: finite memory K = n (the guard [n <= length s] is essential: the output depends on the last n values) *)
 Theorem cti_finite_memory n p p' s : (1 <= n)%nat -> (n <= length s)%nat ->
   cout (@cti_core R ROps n) (p ++ s) = cout (@cti_core R ROps n) (p' ++ s).
 Proof.
-  intros Hn Hl. rewrite !cti_out_full by (try rewrite app_length; lia).
+  intros Hn Hl. rewrite !cti_out by exact Hn.
   rewrite !lastn_app_suffix by exact Hl. reflexivity.
 Qed.
 
@@ -993,38 +982,16 @@ Proof.
   rewrite !lastn_app_suffix by exact Hl. reflexivity.
 Qed.
 
-(** the guard [n <= length vs] of [cti_closed_form] is necessary: during warm-up the model uses the
-    window length n as the count (D15), e.g. n = 3, history 1,2: model 3 / sqrt 12, Pearson 1 *)
-Theorem cti_warmup_refuted :
-  exists n vs, (1 <= n)%nat /\ (length vs < n)%nat /\
-    cout (@cti_core R ROps n) vs <> Ok (@spec_cti R ROps n vs).
-Proof.
-  exists 3%nat, [1; 2]. split; [lia|]. split; [cbn; lia|].
-  rewrite cti_out by lia. unfold spec_cti. rewrite timed_R. unfold lastn. cbn [length Nat.sub skipn].
-  unfold padded. cbn [length Nat.sub repeat]. rewrite !timedR_cons. change (timedR 2 []) with (@nil (R * R)).
-  cbn [app]. rewrite !pearson_R.
-  set (l := [(INR 0, 1); (INR 1, 2); (0, 0)]). set (l' := [(INR 0, 1); (INR 1, 2)]).
-  assert (Ht : vart l = 2) by (unfold vart, St, Stt, l; rewrite !sm_cons, !sm_nil; cbn [fst snd length INR]; lra).
-  assert (Hv : varv l = 6) by (unfold varv, Sv, Svv, l; rewrite !sm_cons, !sm_nil; cbn [fst snd length INR]; lra).
-  assert (Hc : cov l = 3) by (unfold cov, St, Sv, Stv, l; rewrite !sm_cons, !sm_nil; cbn [fst snd length INR]; lra).
-  assert (Ht' : vart l' = 1) by (unfold vart, St, Stt, l'; rewrite !sm_cons, !sm_nil; cbn [fst snd length INR]; lra).
-  assert (Hv' : varv l' = 1) by (unfold varv, Sv, Svv, l'; rewrite !sm_cons, !sm_nil; cbn [fst snd length INR]; lra).
-  assert (Hc' : cov l' = 1) by (unfold cov, St, Sv, Stv, l'; rewrite !sm_cons, !sm_nil; cbn [fst snd length INR]; lra).
-  rewrite Ht, Hv, Hc, Ht', Hv', Hc'.
-  destruct (Rlt_dec 0 2) as [_|F]; [|lra]. destruct (Rlt_dec 0 6) as [_|F]; [|lra].
-  destruct (Rlt_dec 0 1) as [_|F]; [|lra].
-  replace (1 * 1) with 1 by lra. rewrite sqrt_1. intros H. inversion H as [H'].
-  assert (Hs : sqrt (2 * 6) * sqrt (2 * 6) = 2 * 6) by (apply sqrt_sqrt; lra).
-  assert (Hs0 : 0 < sqrt (2 * 6)) by (apply sqrt_lt_R0; lra).
-  set (s := sqrt (2 * 6)) in *. assert (E : 3 / s * s = 3) by (field; lra).
-  rewrite H' in E. clearbody s. nra.
-Qed.
-
 (** * Examples: the hypotheses of the main theorems are satisfiable; model = spec at the Q instance *)
 Ltac win := unfold lastn; cbn [length Nat.sub skipn].
 
 Example cti_closed_form_ex : cout (@cti_core R ROps 3) [5; 1; 2; 4] = Ok (@spec_cti R ROps 3 [5; 1; 2; 4]).
-Proof. apply cti_closed_form; cbn; lia. Qed.
+Proof. apply cti_closed_form; lia. Qed.
+Example cti_closed_form_warmup_ex : cout (@cti_core R ROps 3) [5; 1] = Ok (@spec_cti R ROps 3 [5; 1]).
+Proof. apply cti_closed_form; lia. Qed.
+Example cti_warmup_is_pearson_ex :
+  cout (@cti_core R ROps 3) [1; 2] = Ok (Some (@pearson R ROps (@timed R ROps [1; 2]))).
+Proof. apply cti_warmup_is_pearson; cbn; lia. Qed.
 Example cti_range_ex : exists x, cout (@cti_core R ROps 3) [5; 1] = Ok (Some x) /\ -1 <= x <= 1.
 Proof. apply cti_range; lia. Qed.
 Example cti_scale_ex : exists x, cout (@cti_core R ROps 3) [5; 1] = Ok (Some x) /\
@@ -1035,7 +1002,10 @@ Example cti_neg_ex : exists x, cout (@cti_core R ROps 3) [5; 1; 2; 4] = Ok (Some
 Proof. apply cti_neg; lia. Qed.
 Example cti_affine_inv_ex :
   cout (@cti_core R ROps 3) (map (fun v => 2 * v + 7) [5; 1; 2; 4]) = cout (@cti_core R ROps 3) [5; 1; 2; 4].
-Proof. apply cti_affine_inv; [lia | cbn; lia | lra]. Qed.
+Proof. apply cti_affine_inv; [lia | lra]. Qed.
+Example cti_affine_inv_warmup_ex :
+  cout (@cti_core R ROps 3) (map (fun v => 2 * v + 7) [5; 1]) = cout (@cti_core R ROps 3) [5; 1].
+Proof. apply cti_affine_inv; [lia | lra]. Qed.
 Example cti_pos_ex : exists x, cout (@cti_core R ROps 3) [5; 1; 2; 4] = Ok (Some x) /\ 0 < x.
 Proof. apply cti_pos; [lia | cbn; lia | win; repeat constructor; lra]. Qed.
 Example cti_neg_decr_ex : exists x, cout (@cti_core R ROps 3) [5; 4; 2; 1] = Ok (Some x) /\ x < 0.
@@ -1047,7 +1017,7 @@ Proof.
   reflexivity.
 Qed.
 Example cti_const_ex : cout (@cti_core R ROps 3) [1; 7; 7; 7] = Ok (Some 0).
-Proof. apply (cti_const 3 7); [lia | cbn; lia | win; repeat constructor]. Qed.
+Proof. apply (cti_const 3 7); [lia | win; repeat constructor]. Qed.
 Example cti_finite_memory_ex :
   cout (@cti_core R ROps 3) ([1] ++ [4; 5; 6]) = cout (@cti_core R ROps 3) ([2; 3] ++ [4; 5; 6]).
 Proof. apply cti_finite_memory; cbn; lia. Qed.
@@ -1095,6 +1065,9 @@ Example cti_q : cout (@cti_core Q QOps 4) (qs [1; 2; 4; 8]%Z) = Ok (@spec_cti Q 
 Proof. vm_compute. reflexivity. Qed.
 Example cti_q2 : cout (@cti_core Q QOps 3) (qs [3; 1; 2; 4; 9]%Z) = Ok (@spec_cti Q QOps 3 (qs [3; 1; 2; 4; 9]%Z)).
 Proof. vm_compute. reflexivity. Qed.
+(** before the window is full (3 values, n = 4): the Pearson correlation of the values present *)
+Example cti_q_warmup : cout (@cti_core Q QOps 4) (qs [1; 3; 2]%Z) = Ok (@spec_cti Q QOps 4 (qs [1; 3; 2]%Z)).
+Proof. vm_compute. reflexivity. Qed.
 Example net_q : cout (@net_core Q QOps 4) (qs [3; 1; 2; 2; 9]%Z) = Ok (@spec_net Q QOps 4 (qs [3; 1; 2; 2; 9]%Z))
   /\ @spec_net Q QOps 4 (qs [3; 1; 2; 2; 9]%Z) = Some (5 # 6).
 Proof. vm_compute. split; reflexivity. Qed.
@@ -1107,7 +1080,7 @@ Example cog_q0 : cout (@cog_core Q QOps 3) (qs [3; -3]%Z) = Ok (@spec_cog Q QOps
 Proof. vm_compute. reflexivity. Qed.
 
 Print Assumptions cti_closed_form.
-Print Assumptions cti_warmup_refuted.
+Print Assumptions cti_warmup_is_pearson.
 Print Assumptions cti_monotone_refuted.
 Print Assumptions cti_affine.
 Print Assumptions cti_pos.
